@@ -579,6 +579,9 @@ func evalPlanner(c PCase) (problems []string, n int) {
 			if !strings.Contains(text, "CONSTRAINT `"+fk+"`") && !strings.Contains(text, "CONSTRAINT \""+fk+"\"") {
 				bad("the plan is reported reversible, yet no reverse statement restores foreign key %s:\n%s", fk, text)
 			}
+			if n := strings.Count(text, "CONSTRAINT `"+fk+"`") + strings.Count(text, "CONSTRAINT \""+fk+"\""); n > 1 {
+				bad("the reverse statements restore foreign key %s %d times (the second one fails: the constraint exists):\n%s", fk, n, text)
+			}
 		}
 	}
 	// a reverse statement names what it drops (a constraint the database named cannot be undone by text).
